@@ -1997,6 +1997,11 @@ func (s *Netceptor) runProtocol(ctx context.Context, sess BackendSession, bi *Ba
 			if verifhook.On {
 				verifhook.Emit(s.vn, "recv", "sess", ci.vsess, "est", established, "peer", remoteNodeID, "len", len(data), "msg", verifMsgSummary(data))
 			}
+			if len(data) == 0 {
+				s.Logger.Warning("Ignoring empty message from backend\n")
+
+				continue
+			}
 			msgType := data[0]
 			if established {
 				switch msgType {
